@@ -130,15 +130,21 @@ def rand_doc_lines(rng, lo=0, hi=6):
     return [rand_doc_line(rng) for _ in range(rng.randint(lo, hi))]
 
 
-def doc_block(lines, indent="", module=None):
-    """the canonical doccomment text for body lines (as the documentation prescribes)"""
+def doc_block(lines, indent="", module=None, cuts=None, prefix=""):
+    """the canonical doccomment text for body lines (as the documentation prescribes);
+    cuts = {line index: k}: that line is indented by k characters less than the block (a ragged
+    block); prefix = extra uniform indentation of the whole block (opening line excluded: the
+    caller prints it)"""
     first = "#[[["
     if module is not None:
         first += " @module" + (" " + module if module else "")
     out = [first]
-    for l in lines:
-        out.append(indent + ("# " + l if l else "#"))
-    out.append(indent + "#]]")
+    for i, l in enumerate(lines):
+        ind = indent
+        if cuts and i in cuts:
+            ind = indent[:max(0, len(indent) - cuts[i])]
+        out.append(prefix + ind + ("# " + l if l else "#"))
+    out.append(prefix + indent + "#]]")
     return "\n".join(out)
 
 
@@ -457,9 +463,10 @@ def print_doc(lay, doc, base_indent=""):
     if doc is None:
         return ""
     ind = doc["indent"]
-    text = doc_block(doc["lines"], ind, doc.get("module"))
+    cuts = {int(k): v for k, v in (doc.get("cuts") or {}).items()}
+    text = doc_block(doc["lines"], ind, doc.get("module"), cuts=cuts, prefix=doc.get("prefix", ""))
     text = text.replace("\n", lay.eol)
-    return ind + text + lay.eol + (lay.gap() if lay.rng.random() < lay.p else "")
+    return doc.get("prefix", "") + ind + text + lay.eol + (lay.gap() if lay.rng.random() < lay.p else "")
 
 
 def print_nodes(lay, nodes, depth=0):
